@@ -23,7 +23,7 @@ FUNCTIONS = [
 ]
 BOUNDS = {
     "quick": {"declared": [0, 1, 2, 3], "columns": [1, 2, 3], "rows": [1, 2], "pad_cap": 1, "wrapped": [[2, 2], [3, 2]], "task_budget_s": 900},
-    "thorough": {"declared": [0, 1, 2, 3, 4], "columns": [1, 2, 3, 4], "rows": [1, 2, 3], "pad_cap": 2, "wrapped": [[2, 2], [3, 2], [4, 2], [4, 3]], "task_budget_s": 3000},
+    "thorough": {"declared": [0, 1, 2, 3, 4], "columns": [1, 2, 3], "rows": [1, 2, 3], "pad_cap": 2, "wrapped": [[2, 2], [3, 2], [4, 2], [4, 3]], "task_budget_s": 3000},
 }
 ASSUMPTIONS = [
     "every data line carries the same number c of concrete numerals (unwrapped); paddings, LF/CRLF, final newline symbolic; numpy.genfromtxt is the validated contract stub of C02",
